@@ -31,7 +31,7 @@ type KChild struct {
 }
 
 var keyAlphabet = []string{"a", "b", "c", "a_b", "b_c", "nil", "x y", "é", "a_", "_b", "0", "1",
-	"A", "AB", "Ab", "aB", "ab", "É", "NIL", "Nil", "", "ß", "İ", "a\tb", "true", "-1"}
+	"A", "AB", "Ab", "aB", "ab", "É", "NIL", "Nil", "", "ß", "İ", "a\tb", "true", "-1", "a ", " a", "a\n", "01", "1.0", "+1"}
 
 func genKeyVal(rng *rand.Rand) (interface{}, interface{}) {
 	s := keyAlphabet[rng.Intn(len(keyAlphabet))]
@@ -122,7 +122,7 @@ type c11Graph struct {
 	Children [][]interface{} `json:"children"`        // id, fk tuple
 }
 
-var c11SafeAlpha = []string{"a", "A", "ab", "AB", "Ab", "b", "c", "x y", "é", "É", "0", "1", "nil", "nilx", ""}
+var c11SafeAlpha = []string{"a", "A", "ab", "AB", "Ab", "b", "c", "x y", "é", "É", "0", "1", "nil", "nilx", "", "a ", " a", "ab\t", "01", "1.0"}
 
 func (g c11Graph) arity() int {
 	if g.Shape == "ius" {
